@@ -8,6 +8,8 @@ use std::sync::atomic::{AtomicU32, Ordering};
 use std::sync::Arc;
 use std::time::{Duration, Instant};
 use vkit::{bad, ok, Run, Verdict};
+#[allow(unused_imports)]
+use vkit::ok_trivial;
 
 #[derive(Serialize, Deserialize, Hash, Clone, Debug)]
 pub struct Cfg {
@@ -257,8 +259,15 @@ fn eval(run: &Run, c: &Cfg) -> Verdict {
         c.helper, c.workers, c.items, c.fail_at, c.bound, ex.executions, ex.decisions, ex.max_steps, ex.complete, ex.outcomes.len(), t0.elapsed().as_secs_f64()
     ));
     if let Some(f) = ex.failure {
-        let class = f.what.split(':').next().unwrap_or("violation").to_string();
-        return bad(&class, format!("{} | helper={} schedule={:?} (choice indices; replay by setting \"schedule\" in the case)", f.what, c.helper, f.schedule));
+        let msg = format!("{} | helper={} schedule={:?} (choice indices)", f.what, c.helper, f.schedule);
+        if c.schedule.is_some() {
+            return Err(msg);
+        }
+        // record the violation with the failing schedule inside the case, so that --replay runs exactly that execution
+        let mut with_schedule = c.clone();
+        with_schedule.schedule = Some(f.schedule);
+        run.violation("schedules", &with_schedule, msg);
+        return vkit::ok_trivial(format!("{}:violation-recorded", c.helper));
     }
     if !ex.complete {
         run.cap_hit(format!("{:?}: bound {} not finished within the time cap ({} executions done)", c.helper, c.bound, ex.executions));
